@@ -377,7 +377,11 @@ func (t *impT) call(c *ast.CallExpr, value bool) string {
 			return t.expr(c.Args[0])
 		case "make":
 			if len(c.Args) == 2 {
-				if _, ok := c.Args[0].(*ast.ArrayType); ok {
+				if at, ok := c.Args[0].(*ast.ArrayType); ok {
+					if _, nested := at.Elt.(*ast.ArrayType); nested {
+						// make([][]T, n): the zero value of the element type is the nil slice
+						return t.hoist("m", "(gomake [] "+t.expr(c.Args[1])+")")
+					}
 					return t.hoist("m", "(gomake zero "+t.expr(c.Args[1])+")")
 				}
 			}
